@@ -231,11 +231,17 @@ func dump(sb *strings.Builder, v reflect.Value) {
 	case reflect.Float64:
 		fmt.Fprintf(sb, "(s %d)", math.Float64bits(v.Float()))
 	case reflect.String:
-		fmt.Fprintf(sb, "(b %s)", hex.EncodeToString([]byte(v.String())))
+		if v.Len() == 0 {
+			sb.WriteString("(b)")
+		} else {
+			fmt.Fprintf(sb, "(b %s)", hex.EncodeToString([]byte(v.String())))
+		}
 	case reflect.Slice:
 		if t.Elem().Kind() == reflect.Uint8 {
 			if v.IsNil() {
 				sb.WriteString("(bn)")
+			} else if v.Len() == 0 {
+				sb.WriteString("(b)")
 			} else {
 				fmt.Fprintf(sb, "(b %s)", hex.EncodeToString(v.Bytes()))
 			}
